@@ -9,6 +9,7 @@ import (
 	"fmt"
 	"io"
 	"log/slog"
+	"net"
 
 	wire "github.com/jeroenrinzema/psql-wire"
 	"github.com/jeroenrinzema/psql-wire/codes"
@@ -42,6 +43,9 @@ func Start(parse wire.ParseFn, opts ...wire.OptionFn) *Env {
 	}
 	e := &Env{Srv: srv, L: tr.NewListener(), ServeErr: make(chan error, 1)}
 	go func() { e.ServeErr <- srv.Serve(e.L) }()
+	// wait until Serve has entered its accept loop: the properties quantify over Close calls
+	// interleaved with connections, not over a Close racing with the start of Serve itself
+	<-e.L.Ready()
 	return e
 }
 
@@ -68,11 +72,19 @@ type Wrap struct {
 type ErrSpec struct {
 	Base  string
 	Wraps []Wrap // innermost first
+	// Pre, when set, is an already built error value carrying Wraps[:PreN] (a shared
+	// sentinel that several reports decorate further); Build continues from it.
+	Pre  error `json:"-"`
+	PreN int
 }
 
 func (e *ErrSpec) Build() error {
 	var err error = errors.New(e.Base)
-	for _, w := range e.Wraps {
+	ws := e.Wraps
+	if e.Pre != nil {
+		err, ws = e.Pre, e.Wraps[e.PreN:]
+	}
+	for _, w := range ws {
 		switch w.K {
 		case 'c':
 			err = psqlerr.WithCode(err, codes.Code(w.S))
@@ -166,6 +178,7 @@ type CopyPlan struct {
 	OnErr    string // "propagate" | "own" | "complete"
 	OnStop   string // what to do when stopping early: "own" error | "complete"
 	Binary   bool   // decode rows through the library's binary row reader
+	OwnErr   int    // index into OwnErrs for the handler's own error
 }
 
 type Stmt struct {
@@ -343,6 +356,16 @@ func runStmt(ctx context.Context, s *Sess, st *Stmt, w wire.DataWriter, params [
 
 var ErrOwn = psqlerr.WithCode(errors.New("harness: handler gave up on copy"), codes.DataException)
 
+// OwnErrs are the errors a scripted COPY handler may fail with ("own" error kinds):
+// plain, and wrapping the standard library errors a real handler would plausibly return.
+var OwnErrs = []error{
+	ErrOwn,
+	fmt.Errorf("harness: short copy stream: %w", io.ErrUnexpectedEOF),
+	fmt.Errorf("harness: backend connection: %w", net.ErrClosed),
+	fmt.Errorf("harness: cancelled: %w", context.Canceled),
+	fmt.Errorf("harness: premature end: %w", io.EOF),
+}
+
 func runCopy(ctx context.Context, c *tr.Conn, st *Stmt, w wire.DataWriter, plan *CopyPlan) error {
 	cr, err := w.CopyIn(plan.Format)
 	if err != nil {
@@ -362,7 +385,7 @@ func runCopy(ctx context.Context, c *tr.Conn, st *Stmt, w wire.DataWriter, plan 
 			if plan.OnStop == "complete" {
 				return w.Complete(fmt.Sprintf("COPY %d", n))
 			}
-			return ErrOwn
+			return OwnErrs[plan.OwnErr%len(OwnErrs)]
 		}
 		rec := CopyRec{Stmt: st.ID, Read: n}
 		if br != nil {
@@ -387,7 +410,7 @@ func runCopy(ctx context.Context, c *tr.Conn, st *Stmt, w wire.DataWriter, plan 
 		if err != nil {
 			switch plan.OnErr {
 			case "own":
-				return ErrOwn
+				return OwnErrs[plan.OwnErr%len(OwnErrs)]
 			case "complete":
 				return w.Complete(fmt.Sprintf("COPY %d", n))
 			default:
